@@ -251,7 +251,18 @@ def make_replay(pid, v, repo, here, known_entry=None, seed=0):
             rec['witness_search'] = 'no witness enumerator for this obligation family'
     else:
         conc = v.get('concrete')
-        if conc and v.get('schema') and v.get('replay_family'):
+        if conc and v.get('schema') == 'raw' and v.get('replay_family'):
+            vals = [bytes(c).hex() for c in conc]
+            rec['counterexample'] = dict(schema='raw bytes of each kani::any() in harness order', values=vals)
+            if build_replay(here) == 0:
+                r = run_replay(here, v['replay_family'], vals)
+                rec['observed_on_real_code'] = r
+                rec['replay_cmd'] = f'{replay_bin(here)} {v["replay_family"]} ' + ' '.join(vals)
+                if r['outcome'] in ('property-violated', 'panic', 'hang', 'crash'):
+                    rec['failing_input_found'] = True
+                else:
+                    rec['note'] = 'the counterexample did not reproduce on the non-Kani build (spurious or harness-specific)'
+        elif conc and v.get('schema') and v.get('replay_family'):
             vals = decode_concrete(conc, v['schema'])
             rec['counterexample'] = dict(schema=v['schema'], values=vals, raw=conc)
             if build_replay(here) == 0:
